@@ -4,6 +4,7 @@ from props.m1common import g, sp, sx, rng_for, is_err, compare_result, shrink_tr
 
 PID = "C02"
 RUNNER = "impl_m1.py"
+VM_CROSSCHECK = True
 N = {"quick": 2000, "thorough": 80000}
 LEVEL_RULE = ("random event trees (leaf, sequence, simultaneity roots; depth <= 4, zero-length leaves, empty containers, unequal "
               "voices); 1-4 distinct split times in [0, duration] drawn from child boundaries +-1 tick, leaf interiors, 0 and the "
@@ -200,3 +201,20 @@ def neighbours(case):
     out.append(case[:3] + sorted(int(x) for x in case[3:]))
     out.append(case[:2] + [1 - int(case[2])] + case[3:])
     return out + shrink(case)
+
+
+EXHAUSTIVE_SPACE = ("every tree with <= 4 nodes over leaf lengths {0, 1, 2}, every single split time in -1 .. duration+1 and every "
+                    "pair of distinct times in 0 .. duration, with and without ignore_invalid_split_point")
+
+
+def exhaustive_cases():
+    out = []
+    for t in g.enumerate_trees(4, (0, 1, 2)):
+        d = g.dur(t)
+        for ign in (0, 1):
+            for a in range(-1, d + 2):
+                out.append(["split_at", t, ign, a])
+            for a in range(0, d + 1):
+                for b in range(a + 1, d + 1):
+                    out.append(["split_at", t, ign, b, a])
+    return out
